@@ -53,6 +53,9 @@ def classify(ctx, cfg, seg, idx, reason):
                  json.dumps(fo) if fo else None))[:700], replay
 
 
+CHUNK = 600
+
+
 def sweep(ctx, drv, cfg, histfile, hists, seed, bursts):
     safe = re.sub(r"[^A-Za-z0-9]+", "_", cfg)
     out = ctx.path("c13_%s.ndjson" % safe)
@@ -62,10 +65,13 @@ def sweep(ctx, drv, cfg, histfile, hists, seed, bursts):
     total = None
     while True:
         rc, so, se = ctx.run([drv, "-cfg", cfg, "-hist", histfile, "-out", out, "-seed", str(seed), "-start", str(start),
-                              "-progress", prog, "-bursts", str(bursts)], timeout=1500, ok_codes=None)
+                              "-progress", prog, "-bursts", str(bursts), "-count", str(CHUNK)], timeout=1500, ok_codes=None)
         m = re.search(r"runs=(\d+) total=(\d+)", so)
         if rc == 0 and m:
             total = int(m.group(2))
+            start += int(m.group(1))
+            if start < total and int(m.group(1)) > 0:
+                continue      # next chunk of runs (one process per CHUNK runs keeps every call well inside the time-out)
             break
         pm = re.search(r"panic: (.*)", se) or re.search(r"fatal error: (.*)", se)
         if pm and os.path.exists(prog):
